@@ -38,15 +38,15 @@ ID_CATALOGUE = [b'#....meta: length=3', b'#meta length=3', b'#.Meta: length=3', 
                 b'#..met: length=3', b'#.\x2e.meta: length=3', b'#..meta: length=3\r', b'#..meta: length=3, a="b"']
 
 
-def file_for(s):
-    return HEAD + PREFIX + s + TAIL
+def file_for(s, which=1):
+    return HEAD + (PREFIX if which == 1 else PREFIX[:-1]) + s + TAIL
 
 
 def _outcomes(chunk):
     out = []
-    for s in chunk:
-        recs, end, line, col, msgok = rdriver.read_bytes(file_for(s))
-        out.append((s, end))
+    for which, s in chunk:
+        recs, end, line, col, msgok = rdriver.read_bytes(file_for(s, which))
+        out.append((which, s, end))
     return out
 
 
@@ -63,8 +63,11 @@ def run(run, replay=None):
     n_enum = 4 if quick else 5
     mc_cfg = 'SPECIFICATION Spec\nCONSTANTS N = %d\nINVARIANT Agree\nINVARIANT Verbatim\nINVARIANT RenderParse\nCHECK_DEADLOCK FALSE\n'
     run.mc('MC_Header', mc_cfg % n_mc, note='recogniser = DFA on all strings <= %d over 15 classes' % n_mc)
-    acc = set(bytes(b['s']) for b in gen.behaviours('Gen_Header', {'N': n_enum}, run=run, timeout=1800))
-    space = list(enumerate_space(n_enum))
+    acc = set()
+    for which in (1, 2):
+        acc |= set((which, bytes(b['s'])) for b in gen.behaviours('Gen_Header', {'N': n_enum, 'Which': which},
+                                                                  run=run, timeout=1800))
+    space = [(w, s) for w in (1, 2) for s in enumerate_space(n_enum)]
     chunks = [space[k::64] for k in range(64)]
     with ProcessPoolExecutor(max_workers=16) as ex:
         results = [x for part in ex.map(_outcomes, chunks) for x in part]
@@ -75,34 +78,35 @@ def run(run, replay=None):
     cid = 0
     rejects = []
     good = []
-    for s, end in results:
+    for which, s, end in results:
         run.evaluations += 1
-        in_acc = s in acc
+        in_acc = (which, s) in acc
         if in_acc:
             nacc += 1
-            run.distinct.add(s)
+            run.distinct.add((which, s))
         agree = (end == 'done') == in_acc and end in ('done', 'parse')
         if in_acc or not agree:
             if not agree:
                 disagreements += 1
-            if in_acc and agree and len(cases) > (4000 if quick else 30000) and rng.random() > 0.1:
+            if in_acc and agree and len(cases) > (40000 if quick else 400000) and rng.random() > 0.1:
                 continue
-            cases.append(rdriver.case(cid, 'header', file_for(s), cat))
+            cases.append(rdriver.case(cid, 'header', file_for(s, which), cat))
             if in_acc and agree:
                 good.append(cases[-1])
             cid += 1
         else:
-            rejects.append(s)
-    for s in rng.sample(rejects, min(len(rejects), 1500 if quick else 20000)):
-        cases.append(rdriver.case(cid, 'header', file_for(s), cat))
+            rejects.append((which, s))
+    for which, s in rng.sample(rejects, min(len(rejects), 1500 if quick else 20000)):
+        cases.append(rdriver.case(cid, 'header', file_for(s, which), cat))
         cid += 1
     for h in ID_CATALOGUE:
         data = HEAD + h + TAIL
         cases.append(rdriver.case(cid, 'header', data, cat))
         run.count(('id-catalogue', h), nontrivial=True)
         cid += 1
-    run.sample({'accepted_example': (PREFIX + sorted(acc, key=len)[-1]).decode('latin-1')})
-    run.sample({'rejected_example': (PREFIX + rejects[len(rejects) // 2]).decode('latin-1')})
+    run.sample({'accepted_example': (PREFIX + sorted((s for w, s in acc if w == 1), key=len)[-1]).decode('latin-1')})
+    run.sample({'accepted_example_value_position': (PREFIX[:-1] + sorted((s for w, s in acc if w == 2), key=len)[-1]).decode('latin-1')})
+    run.sample({'rejected_example': (PREFIX + rejects[len(rejects) // 2][1]).decode('latin-1')})
     run.sample({'catalogue_example': ID_CATALOGUE[5].decode('latin-1')})
     can = []
     pool = good
